@@ -342,7 +342,7 @@ def path_fact_sets(ctx, fn: FuncInfo, node: ast.AST, res: Resolver | None = None
     """Branch facts along every acyclic CFG path from the function entry to `node`: one CNF per path."""
     g = ctx.cfg(fn)
     res = res or resolver(ctx, fn)
-    target = g.node_of(node)
+    target = node if isinstance(node, int) else g.node_of(node)
     # nodes that can reach the target
     back = set()
     todo = [target]
